@@ -1,4 +1,4 @@
-(* C15 — the screen shows the actual state (partial: plain configuration, list area proved in full).
+(* C15 — the screen shows the actual state (partial: plain configuration).
    Statements only; proofs live in proofs/RenderProofs.v.
    Vocabulary (spec/RenderSpec.v): cfg (window, layout, info style, header, --multi), view (query, result list,
    current line, scroll offset, selection), list_row c i = the window row the layout gives to list slot i,
@@ -49,15 +49,19 @@ Theorem header_not_in_list : forall c i, cfg_ok c -> i < max_items c ->
 Proof. exact header_not_in_list_proof. Qed.
 Print Assumptions header_not_in_list.
 
-(* ★ width_bound, PARTIAL: every list row of the full render is exactly as wide as the window (nothing is
-   printed past the last column, for width-1 text).
-   Full statement, not proved:  forall c v, cfg_ok c -> view_ok c v -> Forall (fun r => length r = c_w c) (render c v)
-   — missing: prompt, info and header rows (their writes are bounded by the same trunc/trim_msg arithmetic;
-   evaluated on every captured screen by the check instead). *)
-Theorem width_bound_partial : forall c v i, cfg_ok c -> view_wf v -> i < max_items c ->
-  length (row_at (render c v) (list_row c i)) = c_w c.
-Proof. exact width_bound_list_proof. Qed.
-Print Assumptions width_bound_partial.
+(* ★ width_bound: no row of the full render is wider (or narrower) than the window — nothing is printed past the
+   last column, for width-1 text, whenever prompt and query fit the prompt row (view_ok). *)
+Theorem width_bound : forall c v, cfg_ok c -> view_ok c v -> view_wf v ->
+  Forall (fun r => length r = c_w c) (render c v).
+Proof. exact width_bound_proof. Qed.
+Print Assumptions width_bound.
+
+(* the complete statement: the full render is a faithful screen — the prompt row shows prompt and query (and the
+   inline / inline-right counter), the info row shows matched/total (selected) and the separator, every list slot
+   shows its result, every --header / --header-lines line is where the layout puts it (RenderSpec.faithful). *)
+Theorem render_faithful : forall c v, cfg_ok c -> view_ok c v -> view_wf v -> faithful c v (render c v).
+Proof. exact render_faithful_proof. Qed.
+Print Assumptions render_faithful.
 
 (* ★ constrain_in_bounds: whatever cy/offset were, after Terminal.constrain the current line exists, lies on a
    visible row, and the window is full whenever the list is long enough (offset+maxLines <= count, or offset = 0). *)
@@ -66,18 +70,29 @@ Theorem constrain_in_bounds : forall count maxl so cy off, 1 <= count -> 1 <= ma
 Proof. exact constrain_in_bounds_proof. Qed.
 Print Assumptions constrain_in_bounds.
 
-(* ★ incremental_eq_full, PARTIAL (list area): for EVERY history of field updates and render requests in which a
-   step either asks for the list (or everything) to be redrawn or leaves result list, current line and selection
-   unchanged, the list rows of the screen buffer after the incremental redraws — rows skipped because their
-   prevLines entry matched, rows overdrawn only as far as the previous text reached — are exactly the rows a
-   full redraw of the final state paints on an erased window.  Item texts are determined by their index.
-   Full statement (whole buffer) is FALSE, see incremental_eq_full_refuted; for the prompt and header rows it
-   holds trivially in the model (they are cleared before each print) but is not stated. *)
-Theorem incremental_eq_full_partial : forall txt_of c v0 us, cfg_ok c ->
+(* incremental_eq_full_list (list area only, no hypothesis on widths): for EVERY history of field updates and render
+   requests in which a step either asks for the list (or everything) to be redrawn or leaves result list, current
+   line and selection unchanged, the list rows of the screen buffer after the incremental redraws — rows skipped
+   because their prevLines entry matched, rows overdrawn only as far as the previous text reached — are exactly
+   the rows a full redraw of the final state paints on an erased window. *)
+Theorem incremental_eq_full_list : forall txt_of c v0 us, cfg_ok c ->
   coherent txt_of (v_matches v0) -> hist_ok txt_of c (start c v0) us ->
   list_seg c (run c (start c v0) us) = list_seg c (paint c (run c (start c v0) us)).
 Proof. intros txt_of c v0 us Hc. exact (incremental_list_proof txt_of c Hc v0 us). Qed.
-Print Assumptions incremental_eq_full_partial.
+Print Assumptions incremental_eq_full_list.
+
+(* ★ incremental_eq_full (whole buffer): for EVERY history of field updates and render requests, the screen buffer
+   after the incremental redraws equals the full redraw of the final state, provided every step (hist_ok_full)
+     - covers what it changes: list / prompt row / counter are either requested (or a full redraw is) or unchanged
+       (the render loop itself re-prints the inline counter after every prompt repaint: RenderModel.is_inline),
+     - keeps prompt+query inside the prompt row (view_ok), and
+     - leaves room for the separator after the counter when one is configured (info_fits) — without that the
+       statement is false, see incremental_eq_full_refuted. *)
+Theorem incremental_eq_full : forall txt_of c v0 us, cfg_ok c ->
+  coherent txt_of (v_matches v0) -> view_ok c v0 -> hist_ok_full txt_of c (start c v0) us ->
+  t_screen (run c (start c v0) us) = t_screen (paint c (run c (start c v0) us)).
+Proof. intros txt_of c v0 us Hc. exact (incremental_eq_full_proof txt_of c Hc v0 us). Qed.
+Print Assumptions incremental_eq_full.
 
 (* FINDING: over the whole buffer incremental <> full.  12 columns, separator on: "30/30 (0)" followed by
    "1/30 (0)" leaves "1/30 (0))" on the info row — the faithful model reproduces what fzf shows
@@ -93,7 +108,7 @@ Print Assumptions incremental_eq_full_refuted.
    a truncated line and the layout's direction *)
 Example c15_nonvacuous :
   let c := mkCfg 12 6 LDefault IDefault true [[72%Z]] [] MAX_MULTI in
-  let v := mkView [] [(0, [97;98;99;100;101;102;103;104;105;106;107]%Z); (1, [120%Z])] 2 1 0 [0] in
+  let v := mkView [GT; SP] [] [(0, [97;98;99;100;101;102;103;104;105;106;107]%Z); (1, [120%Z])] 2 1 0 [0] in
   cfg_ok c /\ view_wf v /\ in_window 2 (max_items c) 1 0 /\
   render c v = [blank 12;
                 pad 12 [62;32;120]%Z;                          (* "> x"          current line, second result *)
@@ -106,4 +121,24 @@ Proof.
   - exists (fun i => if Nat.eqb i 0 then [97;98;99;100;101;102;103;104;105;106;107]%Z else [120%Z]).
     repeat constructor.
   - split; [vm_compute; lia|]. vm_compute. reflexivity.
+Qed.
+
+(* non-vacuity of incremental_eq_full: --info=inline-right with a separator; typing "12" (prompt + list + info
+   requested), then a cursor motion that repaints ONLY the prompt line: the hypotheses hold and the counter is
+   still on the prompt row afterwards *)
+Example c15_incremental_nonvacuous :
+  let c := mkCfg 24 6 LDefault IInlineRight true [] [] MAX_MULTI in
+  let txt := fun i : nat => [49; 48 + Z.of_nat i]%Z in
+  let v0 := mkView [GT; SP] [] [(1, txt 1); (2, txt 2); (3, txt 3)] 3 0 0 [] in
+  let us := [mkUpd [GT; SP] [49; 50]%Z [(2, txt 2)] 3 0 [] (mkReqs true true false true false);
+             mkUpd [GT; SP] [49; 50]%Z [(2, txt 2)] 3 0 [] (mkReqs true false false false false)] in
+  cfg_ok c /\ view_ok c v0 /\ coherent txt (v_matches v0) /\ hist_ok_full txt c (start c v0) us /\
+  nth 0 (t_screen (run c (start c v0) us)) [] = pad 24 ([62;32;49;50]%Z ++ repeat SP 12 ++ [49;47;51;32;40;48;41]%Z).
+Proof.
+  cbn zeta. split; [vm_compute; lia|]. split; [vm_compute; lia|]. split; [repeat constructor|].
+  split; [|vm_compute; reflexivity].
+  cbn [hist_ok_full]. split; [repeat constructor|]. split; [left; reflexivity|]. split; [left; reflexivity|].
+  split; [left; reflexivity|]. split; [vm_compute; lia|]. split; [exact I|].
+  split; [repeat constructor|]. split; [right; right; vm_compute; auto|]. split; [left; reflexivity|].
+  split; [right; right; vm_compute; reflexivity|]. split; [vm_compute; lia|]. split; [exact I|exact I].
 Qed.
